@@ -24,7 +24,7 @@ TRUSTED = [
     "correspondence harness: case generator, canonicalisation of Klong/numpy/pandas results (numbers in quarters, strings as code points)",
 ]
 ASSUME = [
-    "pandas sort_index is a stable sort by key (modelled as insertion sort; order among EQUAL keys is outside the property's domain and compared as a multiset)",
+    "pandas sort_index is a stable sort by key (modelled as insertion sort; order among EQUAL keys is outside the property's domain; nothing is compared after a sequence leaves the domain)",
     "pandas drop_duplicates()/drop_duplicates(subset, keep='last') keep the first/last of equal rows/keys and preserve order (modelled, sampled)",
     "pandas df.loc[common] = b.loc[common] overwrites every frame row whose key is in b and raises when b holds that key twice (modelled, sampled)",
     "np.concatenate of frame values and buffered rows appends the rows in buffer order; dtype coercion (int column -> float/object) is not modelled: cells are compared by value (1 = 1.0)",
@@ -674,9 +674,8 @@ def evaluate(chk, impl, cases, flags="impl"):
                     prop = i
                 if corr is None and iobs[i] != mobs[i]:
                     corr = i
-            else:
-                if corr is None and weak(iobs[i]) != weak(mobs[i]):
-                    corr = i
+            # beyond the property's domain (non-unique index, overwritten index column, ...) nothing is compared: pandas'
+            # behaviour there (duplicate labels in .loc assignment, order among equal keys) is not part of the model's claim
         out.append({"impl": iobs, "model": mobs, "spec": sobs, "dom": dom, "prop": prop, "corr": corr})
     return out
 
